@@ -338,7 +338,7 @@ def tls_monitor(case, impl, model):
 def tls_key(case, impl, model):
     f = tls_fields(case)
     r = impl.split("res=")[-1].split(" ")
-    return "tls/%s/%s" % ("openssl" if f.get("be") == "o" else "rustls", r[0] if r[0] != "ERR" else "ERR-" + r[-1])
+    return "tls/%s/%s" % ({"o": "openssl", "n": "native-tls"}.get(f.get("be"), "rustls"), r[0] if r[0] != "ERR" else "ERR-" + r[-1])
 
 
 TLS_NAMES = ["a.test", "a.test:443", "A.Test", "b.test", "x.w.test", "x.y.w.test", "w.test", "127.0.0.1", "127.0.0.1:80", "::1",
@@ -350,7 +350,7 @@ def tls_cases(ctx):
     out = []
     seed = ctx.rng.randrange(1, 1 << 30)
     k = 0
-    for be in "ro":
+    for be in ["r", "o", "r22", "r21", "r20", "n"]:
         for name in TLS_NAMES:
             for cert in range(len(IDENTS)):
                 k += 1
@@ -367,7 +367,7 @@ def tls_cases(ctx):
     for _ in range(nr):
         k += 1
         out.append("be=%s;io=mem;host=%s;cert=%d;sbe=%s;pl=%d;seed=%d" % (
-            ctx.rng.choice("ro"), hx(ctx.rng.choice(["a.test", "q.w.test", "a.test:8443", "127.0.0.1"])), ctx.rng.choice([0, 5]),
+            ctx.rng.choice(["r", "o", "r22", "r21", "r20", "n"]), hx(ctx.rng.choice(["a.test", "q.w.test", "a.test:8443", "127.0.0.1"])), ctx.rng.choice([0, 5]),
             ctx.rng.choice("ro"), ctx.rng.randint(0, 65536), seed + k))
     return out
 
@@ -388,7 +388,7 @@ def all_streams(ctx):
     tc = tls_cases(ctx)
     s4 = TwoPhase("c19tls", "c19tls", tc, extra_oracle=tls_extra_oracle, monitor=tls_monitor, key=tls_key,
                   nontrivial=lambda c, i: "InvalidInput" not in i and "PANIC" not in i,
-                  describe="%d TLS connector cases (rustls 0.23 / OpenSSL clients x rustls / OpenSSL servers x names x certificates x mem/tcp)" % len(tc))
+                  describe="%d TLS connector cases (rustls 0.23/0.22/0.21/0.20, OpenSSL and native-tls connectors x rustls / OpenSSL servers x names x certificates x mem/tcp)" % len(tc))
     return [s1, s2], [s3, s4]
 
 
